@@ -1,0 +1,8 @@
+//go:build !verif
+
+package internal
+
+// VerifPoint is a no-op unless the module is built with the "verif"
+// build tag, in which case it is a named yield point used by external
+// runtime monitors.
+func VerifPoint(string) {}
